@@ -35,6 +35,54 @@ JUNK = [b"", b" ", b"\t", b"foo", b"on", b"off", b"ON n0", b"On n0", b"status", 
         b"on t[18446744073709551615]x", b"on n[18446744073709551615]", b"status n[18446744073709551614-18446744073709551615]", b"off n18446744073709551615"]
 
 
+LINEMAX = 131072          # cross-checked against Gen/GenConsts.v in correspond()
+
+
+def pad_to(word, arg, n):
+    """`word<blanks>arg` with exactly n bytes: sscanf("word %s") skips any amount of blanks, so this is the request `word arg`"""
+    return word + b" " * (n - len(word) - len(arg)) + arg
+
+
+def boundary_ops(rng, nodes, k=0):
+    """requests at the size limits of the client layer (each a list of ops for client k):
+       gate      stripped length CP_LINEMAX-1 / CP_LINEMAX / CP_LINEMAX+1: junk, an otherwise VALID request (interior blanks), and a short
+                 request behind / before a huge run of blanks (raw line far beyond the gate, stripped line short)
+       reply209  an accepted request (131054..131071 bytes) naming only unknown, incompressible nodes: the 209 reply exceeds CP_LINEMAX
+       cbuf      line ends at / around the initial size of the input cbuf (1024), single long lines on a fresh connection, 24-byte follow-up"""
+    kind = rng.choice(["gate-junk", "gate-valid", "gate-valid", "gate-padded", "reply209", "cbuf", "cbuf", "cbuf"])
+    eol = rng.choice([b"\r\n", b"\n"])
+    B = lambda b: "BYTES %d %s" % (k, (b + eol).hex())
+    tg = ",".join(rng.sample(nodes, min(len(nodes), rng.randint(1, 3)))).encode()
+    word = rng.choice([b"on", b"status", b"off", b"temp"])
+    if kind == "gate-junk":
+        n = rng.choice([LINEMAX - 1, LINEMAX, LINEMAX + 1])
+        return [B((rng.choice([b"on ", b"xx ", b"status "]) + b"x" * n)[:n])]
+    if kind == "gate-valid":
+        n = rng.choice([LINEMAX - 1, LINEMAX - 1, LINEMAX, LINEMAX + 1])
+        # the same request short first (reference outcome), completed, then at the boundary size
+        return [B(word + b" " + tg), "DONEALL %d 0 2d" % k, B(pad_to(word, tg, n)), "SAME %d" % k, "DONEALL %d 0 2d" % k]
+    if kind == "gate-padded":
+        w = rng.choice([b"nodes", b"help", word + b" " + tg])
+        pad = rng.choice([LINEMAX - 6, LINEMAX, LINEMAX + 100, 200000])
+        line = rng.choice([b" " * pad + w, w + b" " * pad, b" " * (pad // 2) + w + b"\t" * (pad // 2)])
+        return [B(w), "DONEALL %d 0 2d" % k, B(line), "SAME %d" % k, "DONEALL %d 0 2d" % k]
+    if kind == "reply209":
+        n = rng.randint(131054, 131071)
+        name = rng.choice([b"q", b"zq", b"x_y"])
+        cnt = (n - 3 + 1) // (len(name) + 1)
+        lst = b",".join([name] * cnt)
+        return [B(pad_to(b"on", lst, n)), B(b"nodes")]
+    # cbuf
+    pat = rng.choice(["single", "then24", "lf-at"])
+    pad = lambda total: b"nodes" + b" " * (total - 5 - len(eol))          # a line of `total` bytes incl. its line end, answered 103
+    if pat == "single":
+        return [B(pad(rng.randint(1000, 1100)))]
+    if pat == "then24":
+        return [B(pad(rng.choice([1000, 1000, 999, 1001, 1023, 1024]))), B(pad(24)), B(b"help")]
+    a = rng.randint(8, 1015)
+    return [B(pad(a)), B(pad(1024 - a + rng.choice([-1, 0, 0, 1]))), B(pad(rng.choice([8, 24, 1024, 1025]))), B(b"nodes")]
+
+
 def gen_session(rng, cfg):
     nodes = cfg.all_nodes()
     names = nodes + [a for a, _ in cfg.aliases]
@@ -42,6 +90,8 @@ def gen_session(rng, cfg):
     ncli = 1
     gone = set()
     dropped = set()
+    if rng.random() < 0.12:
+        ops += boundary_ops(rng, nodes)          # on a fresh connection (input cbuf at its initial size, empty history)
     for _ in range(rng.randint(4, 25)):
         k = rng.randrange(ncli)
         if k in dropped:
@@ -78,6 +128,8 @@ def gen_session(rng, cfg):
             ops.append("BYTES %d %s" % (k, (line + rng.choice(["\r\n", "\n", "\r\n", " \r\n"])).encode().hex()))
         elif r < 0.67:
             j = rng.choice(JUNK)
+            if rng.random() < 0.06 and k not in gone:
+                ops.append("DONEALL %d 0 2d" % k); ops += boundary_ops(rng, nodes, k); continue
             if rng.random() < 0.05:
                 # the length gate: strlen(str) = CP_LINEMAX - 1 / CP_LINEMAX / CP_LINEMAX + 1 (and the same with surrounding blanks, which are stripped first)
                 n = rng.choice([131071, 131072, 131073])
@@ -203,8 +255,20 @@ def impl_monitors(ops, il, linemax):
         if l == "END": blocks.append(cur); cur = []
         else: cur.append(l)
     cmd = {}
-    for op, blk in zip(ops, blocks):
+    last = {}            # client -> outcomes of its last two single-line BYTES ops
+    real = [o for o in ops if not o.startswith("SAME ")]
+    blk_of = dict(zip(range(len(real)), blocks))
+    ri = -1
+    for op in ops:
         w = op.split()
+        if w[0] == "SAME":
+            h = last.get(int(w[1]), [])
+            if len(h) >= 2 and h[-1][0] != h[-2][0] and not (h[-1][2] >= linemax):
+                bad.append(("padded-request", "different-outcome", "the request %r got %s, the same request written %d bytes long got %s" % (h[-2][1][:40], h[-2][0], h[-1][2], h[-1][0])))
+            continue
+        ri += 1
+        if ri not in blk_of: break
+        blk = blk_of[ri]
         if w[0] == "CONN": continue
         k = int(w[1])
         outs = {}
@@ -236,6 +300,9 @@ def impl_monitors(ops, il, linemax):
                     bad.append(("length-gate", "too-long-accepted", "a line of %d bytes (>= CP_LINEMAX) was answered %s" % (len(sline), codes)))
                 if len(sline) < linemax and 203 in codes:
                     bad.append(("length-gate", "short-refused", "a line of %d bytes (< CP_LINEMAX) was answered 203" % len(sline)))
+                if sline in (b"nodes", b"help") and "SKIP" not in flags and codes[:1] not in ([103], [208]):
+                    bad.append(("padded-request", "wrong-reply", "the request %r (raw line %d bytes) was answered %s" % (sline, len(lines[0]), codes)))
+                last.setdefault(k, []).append(("QUEUED" if any(l.startswith("QUEUED") for l in blk) else tuple(codes[:1]), sline, len(sline)))
                 if any(l.startswith("QUEUED") for l in blk):
                     wd = __import__("re").split(rb"[ \t\n\v\f\r]+", sline)[0].decode("latin-1")
                     # sscanf formats are case-sensitive and need not be followed by a blank ("statusx" = status x)
@@ -342,6 +409,8 @@ def hostile_scenario(rng):
 def correspond(ctx, V, n):
     import C01
     consts = pmgen.load_genconsts(ctx.coq)
+    global LINEMAX
+    LINEMAX = consts["CP_LINEMAX"]
     cli = build_cli(ctx)
     enq = C01.build_enq(ctx)
     model = build_model(ctx)
